@@ -36,6 +36,7 @@ theorem tie_randomness : Gen.BeaconNode.randomnessAlgo = "sha256" ∧ Gen.Beacon
 
 theorem tie_tryNode : Gen.BeaconNode.tryNodePacketSteps = tryNodePacketSteps := rfl
 theorem tie_tryAppend : Gen.BeaconNode.tryAppendSteps = tryAppendSteps := rfl
+theorem tie_broadcastNextPartial : Gen.BeaconNode.broadcastNextPartialSteps = broadcastNextPartialSteps := rfl
 theorem tie_aggregator : Gen.BeaconNode.aggregatorPartialSteps = aggregatorPartialSteps ∧
     Gen.BeaconNode.aggregatorStoredSteps = aggregatorStoredSteps := ⟨rfl, rfl⟩
 theorem tie_callbackPut : Gen.BeaconNode.callbackPutSteps = callbackPutSteps := rfl
@@ -409,37 +410,36 @@ private theorem aggOne_inv (c : Crypto) (s : Node) (p : Partial) (h : Inv c k ch
       split <;> first | exact inv_of_fields this rfl rfl rfl rfl rfl rfl | exact this
   all_goals exact inv_of_fields h rfl rfl rfl rfl rfl rfl
 
-private theorem tryNode_inv (c : Crypto) (upTo : Nat) (pkts : List SyncPkt) :
-    ∀ s : Node, Inv c k ch s → Inv c k ch (tryNode c s upTo pkts).1 := by
+private theorem tryNodeLoop_inv (c : Crypto) (upTo : Nat) (pkts : List SyncPkt) :
+    ∀ (s : Node) (last : Beacon), Inv c k ch s → Inv c k ch (tryNodeLoop c s upTo last pkts).1 := by
   induction pkts with
-  | nil => intro s h; exact h
+  | nil => intro s last h; exact h
   | cons pk rest ih =>
-    intro s h
-    unfold tryNode
+    intro s last h
+    unfold tryNodeLoop
     split
     · exact h
     · split
       · exact h
       · next hv =>
-        have hv' : verifyBeacon c s.chained s.chainKey pk.b = true := by simpa using hv
-        have hp := put_inv c s .sync pk.b h hv'
-        have hch : ∀ s' r, Node.put c s .sync pk.b = (s', r) → Inv c k ch s' := by
-          intro s' r hh; rw [hh] at hp; exact hp
         split
-        · next s' hh =>
-          have hs' := hch _ _ hh
+        · exact h
+        · have hv' : verifyBeacon c s.chained s.chainKey pk.b = true := by simpa using hv
+          have hp := put_inv c s .sync pk.b h hv'
+          have hch : ∀ s' r, Node.put c s .sync pk.b = (s', r) → Inv c k ch s' := by
+            intro s' r hh; rw [hh] at hp; exact hp
           split
-          · exact hs'
-          · -- the next packets are checked against the same pinned key and scheme
-            have hk : s'.chained = s.chained ∧ s'.chainKey = s.chainKey := by
-              have := congrArg Prod.fst hh
-              simp only at this
-              rw [← this]
-              unfold Node.put
-              split <;> simp [Node.notify]
-            exact ih s' hs'
-        · next s' hh => exact hch _ _ hh
-        · next s' r _ _ hh => exact hch _ _ hh
+          · next s' hh =>
+            have hs' := hch _ _ hh
+            split
+            · exact hs'
+            · exact ih s' pk.b hs'
+          · next s' hh => exact hch _ _ hh
+          · next s' r _ _ hh => exact hch _ _ hh
+
+private theorem tryNode_inv (c : Crypto) (upTo : Nat) (pkts : List SyncPkt) :
+    ∀ s : Node, Inv c k ch s → Inv c k ch (tryNode c s upTo pkts).1 :=
+  fun s h => tryNodeLoop_inv c upTo pkts s s.last h
 
 private theorem publicRand_inv (c : Crypto) (s : Node) (proxy : Bool) (wanted : Nat) (h : Inv c k ch s) :
     Inv c k ch (publicRand c s proxy wanted).1 := by
@@ -552,7 +552,11 @@ theorem step_inv (c : Crypto) (s : Node) (ev : Ev) (h : Inv c k ch s)
     rcases processPartial_cases c s p with ⟨_, he⟩ | ⟨_, he⟩ <;> rw [he]
     · exact h
     · exact inv_of_fields h rfl rfl rfl rfl rfl rfl
-  | own cur => exact inv_of_fields h rfl rfl rfl rfl rfl rfl
+  | own cur =>
+    show Inv c k ch (match ownPartial c s cur with | some p => { s with newPartials := s.newPartials ++ [p] } | none => s)
+    split
+    · exact inv_of_fields h rfl rfl rfl rfl rfl rfl
+    · exact h
   | aggPartial =>
     show Inv c k ch (aggPartial c s).1
     unfold aggPartial
@@ -624,6 +628,81 @@ theorem c01_write_paths_verified (c : Crypto) (s : Node) (h : Inv c k ch s) :
     (∀ p, Inv c k ch (aggOne c s p).1) ∧ (∀ upTo pkts, Inv c k ch (tryNode c s upTo pkts).1) ∧
     (∀ src b, verifyBeacon c s.chained s.chainKey b = true → Inv c k ch (Node.put c s src b).1) :=
   ⟨fun p => aggOne_inv c s p h, fun upTo pkts => tryNode_inv c upTo pkts s h, fun src b hv => put_inv c s src b h hv⟩
+
+/-- sync writes in chain order: whatever a stream contains, every beacon `tryNode` hands to the store has the round that
+follows the head the call started from, respectively the beacon it stored just before (the round check added after the
+verification guard) — so a lying peer cannot make it attempt a gap, whatever store stack is below -/
+theorem c01_sync_writes_in_order (c : Crypto) (upTo : Nat) (pkts : List SyncPkt) (s : Node) (last : Beacon) :
+    ∀ q ∈ (tryNodeLoop c s upTo last pkts).1.puts, q ∈ s.puts ∨ (q.1 = .sync ∧ last.round < q.2.round) := by
+  induction pkts generalizing s last with
+  | nil => intro q hq; exact Or.inl hq
+  | cons pk rest ih =>
+    intro q hq
+    unfold tryNodeLoop at hq
+    split at hq
+    · exact Or.inl hq
+    · split at hq
+      · exact Or.inl hq
+      · split at hq
+        · exact Or.inl hq
+        · next hrd =>
+          have hput : ∀ s' r, Node.put c s .sync pk.b = (s', r) →
+              ∀ q ∈ s'.puts, q ∈ s.puts ∨ (q.1 = .sync ∧ q.2.round = pk.b.round) := by
+            intro s' r hh q hq'
+            unfold Node.put at hh
+            rcases stack_put_spec s.stack pk.b with ⟨hok, b', hr', _, _, hst⟩ | ⟨hno, _⟩
+            · cases hp : s.stack.put pk.b with
+              | mk st' res =>
+                rw [hp] at hh hok hst
+                simp only at hok hst
+                subst hok
+                simp only [Prod.mk.injEq] at hh
+                obtain ⟨hs', _⟩ := hh
+                subst hs'
+                have : q ∈ s.puts ++ [(Src.sync, st'.appendLast)] := hq'
+                rcases List.mem_append.1 this with h1 | h1
+                · exact Or.inl h1
+                · simp at h1; subst h1
+                  right; refine ⟨rfl, ?_⟩
+                  show st'.appendLast.round = pk.b.round
+                  rw [hst]; exact hr'
+            · cases hp : s.stack.put pk.b with
+              | mk st' res =>
+                rw [hp] at hh hno
+                simp only at hno
+                cases res <;> first | exact absurd rfl hno | (simp only [Prod.mk.injEq] at hh; obtain ⟨hs', _⟩ := hh; subst hs'; exact Or.inl hq')
+          have hlt : last.round < pk.b.round := by
+            have : pk.b.round = last.round + 1 := Decidable.not_not.1 hrd
+            omega
+          split at hq
+          · next s' hh =>
+            split at hq
+            · rcases hput _ _ hh q hq with h1 | ⟨h1, h2⟩
+              · exact Or.inl h1
+              · exact Or.inr ⟨h1, by omega⟩
+            · rcases ih s' pk.b q hq with h1 | ⟨h1, h2⟩
+              · rcases hput _ _ hh q h1 with h3 | ⟨h3, h4⟩
+                · exact Or.inl h3
+                · exact Or.inr ⟨h3, by omega⟩
+              · exact Or.inr ⟨h1, by omega⟩
+          · next s' hh =>
+            rcases hput _ _ hh q hq with h1 | ⟨h1, h2⟩
+            · exact Or.inl h1
+            · exact Or.inr ⟨h1, by omega⟩
+          · next s' r _ _ hh =>
+            rcases hput _ _ hh q hq with h1 | ⟨h1, h2⟩
+            · exact Or.inl h1
+            · exact Or.inr ⟨h1, by omega⟩
+
+/-- the first beacon a sync stream can get stored is exactly head+1 -/
+theorem c01_sync_first_is_next (c : Crypto) (s : Node) (upTo : Nat) (pk : SyncPkt) (rest : List SyncPkt)
+    (h : pk.b.round ≠ s.last.round + 1) : tryNode c s upTo (pk :: rest) = (s, false) := by
+  unfold tryNode tryNodeLoop
+  split
+  · rfl
+  · split
+    · rfl
+    · rfl
 
 /-- **C01 (served)**: every beacon in any response (PublicRand, proxy Get, SyncChain scan and live part,
 PublicRandStream) is in the store … -/
